@@ -875,6 +875,8 @@ def implied_tags(mod, impl_ctx, name, cur):
             add |= {'C03', 'C04'}
         elif name.startswith(('add_', 'update_header', 'set_')) and (cur & {'C01', 'C02', 'C03', 'C04'}):
             add |= {'C01', 'C02', 'C03', 'C04'}
+        if mod in ('hmat', 'slit') and 'C01' in (cur | add):
+            add.add('C12')      # "the table checksum stays valid throughout" is part of C12
     elif mod == 'aml':
         if impl_ctx.startswith('AmlSink for '):
             add |= {'C06', 'C08', 'C14', 'C15'}
